@@ -256,17 +256,18 @@ func (r *rewriter) run() {
 		name string
 	}
 	var (
-		ranges  []*ast.RangeStmt
-		timeSel []*ast.SelectorExpr
-		osSel   []*ast.SelectorExpr
-		randSel []*ast.SelectorExpr
-		locks   []lockCall
-		atomics []*ast.CallExpr
-		gos     []*ast.GoStmt
-		wgWaits []*ast.CallExpr
-		onces   []*ast.CallExpr
-		conds   []lockCall
-		lockers []lockCall
+		ranges    []*ast.RangeStmt
+		timeSel   []*ast.SelectorExpr
+		osSel     []*ast.SelectorExpr
+		randSel   []*ast.SelectorExpr
+		locks     []lockCall
+		atomics   []*ast.CallExpr
+		gos       []*ast.GoStmt
+		wgWaits   []*ast.CallExpr
+		onces     []*ast.CallExpr
+		mapRanges []*ast.CallExpr
+		conds     []lockCall
+		lockers   []lockCall
 	)
 	callFuns := map[ast.Expr]bool{}
 	ast.Inspect(r.file, func(n ast.Node) bool {
@@ -390,6 +391,8 @@ func (r *rewriter) run() {
 						lockers = append(lockers, lockCall{x, fn.Name()})
 					} else if rn == "Cond" && (fn.Name() == "Wait" || fn.Name() == "Signal" || fn.Name() == "Broadcast") {
 						conds = append(conds, lockCall{x, fn.Name()})
+					} else if rn == "Map" && fn.Name() == "Range" {
+						mapRanges = append(mapRanges, x)
 					}
 				case "sync/atomic":
 					atomics = append(atomics, x)
@@ -496,6 +499,25 @@ func (r *rewriter) run() {
 		}
 		c.Fun = sel("simrt", "WGWait")
 		c.Args = []ast.Expr{arg, siteLit(r.site(c.Pos()))}
+		r.need["simrt"] = true
+		r.changed = true
+	}
+	// m.Range(f) on a sync.Map  ->  simrt.SyncMapRange(&m, f, site)
+	for _, c := range mapRanges {
+		se := c.Fun.(*ast.SelectorExpr)
+		recv := se.X
+		if recvTypeName(r.info.TypeOf(recv)) != "Map" {
+			r.rep.Warnings = append(r.rep.Warnings, r.site(c.Pos())+" Range on an embedded sync.Map: iteration order not controlled")
+			continue
+		}
+		var arg ast.Expr
+		if _, isPtr := r.info.TypeOf(recv).Underlying().(*types.Pointer); isPtr {
+			arg = recv
+		} else {
+			arg = &ast.UnaryExpr{Op: token.AND, X: recv}
+		}
+		c.Fun = sel("simrt", "SyncMapRange")
+		c.Args = []ast.Expr{arg, c.Args[0], siteLit(r.site(c.Pos()))}
 		r.need["simrt"] = true
 		r.changed = true
 	}
